@@ -282,6 +282,17 @@ func Run(seed int64, tier, outDir string) (*emit.Summary, error) {
 				Imports: "From CliUtils Require Import Model.Engine Corr.CorrC17.", Check: "check_engine"}
 		}
 		o := obs[i]
+		if i == 0 {
+			realMu.Lock()
+			seen := map[string]bool{}
+			for _, f := range realFailures {
+				if !seen[f] && len(seen) < 10 {
+					seen[f] = true
+					sum.ImplFailures = append(sum.ImplFailures, f)
+				}
+			}
+			realMu.Unlock()
+		}
 		if o.hang {
 			sum.ImplFailures = append(sum.ImplFailures, "event channel not closed within 10s: "+sc.text(o))
 		}
